@@ -262,6 +262,20 @@ func monC12(c *drv.Ctx) {
 			if victim.StatusMessage != "untouched" || victim.StatusCode != 99 || victim.Extra != nil {
 				cs.Fail("exception-decoded-into-struct", nil, M{"victim": fmt.Sprint(victim)})
 			}
+			// the caller's struct may itself be an exception type: it still must not be decoded into
+			v2 := thrift.NewApplicationException(4242, "caller-owned")
+			_, _, err2 := thrift.UnmarshalFastMsg(place(b, 0), v2)
+			var ae2 *thrift.ApplicationException
+			if !errors.As(err2, &ae2) || ae2.TypeID() != tid || ae2.Msg() != text {
+				cs.Fail("exception-not-surfaced", M{"via": "exception-typed-target"}, M{"err": errString(err2)})
+			} else if v2.TypeID() != 4242 || v2.Msg() != "caller-owned" || ae2 == v2 {
+				cs.Fail("exception-decoded-into-struct", M{"via": "exception-typed-target"}, M{"victim_type": v2.TypeID(), "victim_msg": v2.Msg(), "aliases_error": ae2 == v2})
+			}
+			v3 := thrift.NewTransportException(7, "t-owned")
+			thrift.UnmarshalFastMsg(place(b, 0), v3)
+			if v3.TypeID() != 7 || v3.Msg() != "t-owned" {
+				cs.Fail("exception-decoded-into-struct", M{"via": "transport-exception-target"}, M{"victim_type": v3.TypeID(), "victim_msg": v3.Msg()})
+			}
 			cs.C.Obs("exception messages", 1)
 			cs.Count(true, "exc", method, seq, tid, text)
 			return
